@@ -352,22 +352,30 @@ def run(ctx):
             return vals[0].value
         return "?"
 
-    def flag_values(fi, ret, depth=0):
+    def flag_values(fi, ret, depth=0, env=None):
+        """env: parameter name -> set of flag values the caller passes for it"""
         v = ret.value
-        if isinstance(v, ast.Tuple) and v.elts:
-            last = v.elts[-1]
-            if isinstance(last, ast.Constant):
-                return {last.value}
-            if isinstance(last, ast.Name):
-                return {module_const(fi.module, last.id)}
+
+        def value_of(e, fi_, env_):
+            if isinstance(e, ast.Constant):
+                return {e.value}
+            if isinstance(e, ast.Name):
+                if env_ and e.id in env_:
+                    return env_[e.id]
+                return {module_const(fi_.module, e.id)}
             return {"?"}
+
+        if isinstance(v, ast.Tuple) and v.elts:
+            return value_of(v.elts[-1], fi, env)
         if isinstance(v, ast.Call) and isinstance(v.func, ast.Name) and depth < 2:
             ent = p.resolve_expr(fi.module, v.func)
             if ent and ent[0] == "func":
+                callee = ent[1]
+                env2 = {pn: value_of(a, fi, env) for pn, a in zip(callee.params, v.args)}
                 out = set()
-                for rr in walk_function(ent[1].node):
+                for rr in walk_function(callee.node):
                     if isinstance(rr, ast.Return) and rr.value is not None:
-                        out |= flag_values(ent[1], rr, depth + 1)
+                        out |= flag_values(callee, rr, depth + 1, env2)
                 return out or {"?"}
         return {"?"}
 
